@@ -407,6 +407,22 @@ def run(ctx):
     outs = pmap(_pair, jobs, chunksize=8)
     souts = sphinx_pairs(ctx, tid)
     outs = list(outs) + souts
+    # the reference run (nothing suppressed) of one document is the same every time it is made: what an earlier run
+    # suppressed, or merely that there was an earlier run, must not show in a later one
+    first_ref = {}
+    for o in outs:
+        if "outA" not in o or o.get("front") == "sphinx":
+            continue
+        k = (tuple(o["names"]), o["text"], bool(o.get("xforms")))
+        if k not in first_ref:
+            first_ref[k] = o
+        elif first_ref[k]["outA"] != o["outA"]:
+            a, b = first_ref[k]["outA"], o["outA"]
+            d = next((i for i in range(max(len(a), len(b))) if i >= len(a) or i >= len(b) or a[i] != b[i]), 0)
+            ctx.violation(f"the unsuppressed output of document(s) {o['names']} differs between two runs with the same input and configuration "
+                          f"(first difference at item {d + 1}: {a[d] if d < len(a) else None} / {b[d] if d < len(b) else None})",
+                          {"leg": "R-triggers", "documents": o["names"], "markdown": o["text"]})
+            first_ref[k] = o
     intern = {}
     traces, keep = [], {}
     reached = set()
